@@ -1528,7 +1528,13 @@ class Cell(Bucket):
         if name not in self.identity_groups:
             self.identity_groups[name] = IdentityGroup(count)
         else:
-            self.identity_groups[name].adjust(count)
+            group = self.identity_groups[name]
+            group.adjust(count)
+            # Growing the group back must not free identities still held by
+            # apps (group was shrunk and no cycle invalidated them yet).
+            for app in six.itervalues(self.apps):
+                if app.identity_group_ref is group:
+                    group.available.discard(app.identity)
 
     def remove_identity_group(self, name):
         """Remove identity group.
